@@ -52,6 +52,12 @@ void parsec_inform(const char *fmt, ...) { (void)fmt; }
  * --replace-call-with-contract the precondition `false` turns every call into a failed
  * obligation, i.e. it is PROVED that the specifications explored never reach them. */
 static int parsec_vpmap_init_from_file(const char *filename) __CPROVER_requires(0) __CPROVER_assigns();
+#ifdef FILE_SPEC   /* jobs init.file_unopenable.*: the file of a "file:" specification cannot be opened (trusted stub of fopen) */
+#include <stdio.h>
+static int g_fopen;
+FILE *fopen(const char *path, const char *mode) { (void)path; (void)mode; g_fopen++; return NULL; }
+char *strerror(int e) { (void)e; return "cannot open"; }
+#endif
 static int parsec_vpmap_init_from_hardware_affinity(int nbcores) __CPROVER_requires(0) __CPROVER_assigns();
 
 #include "parsec/vpmap.c"
@@ -154,3 +160,25 @@ void h_rr(void)
         V_ASSERT(parsec_vpmap_get_vp_threads(v) == vin.rr_p, "C40.init.post.rr_requested_threads_per_virtual_process");
     V_CANARY("rr");
 }
+
+#ifdef FILE_SPEC
+/* "file:<name>" whose file cannot be opened: unusable specification -> the flat map (property: malformed / unusable
+ * specifications fall back to the default map).  The real parsec_vpmap_init_from_file runs up to its early return. */
+void h_file_unopenable(void)
+{
+    common_pre();
+    static char s[] = FILE_SPEC;
+    parsec_vpmap_init(s, vin.nb_cores);
+    V_ASSERT(g_fopen == 1, "C40.init.lemma.file_specification_reaches_fopen_once");
+    post_flat();
+    V_CANARY("file_unopenable");
+}
+void h_from_file_unopenable(void)
+{
+    common_pre();
+    int rc = parsec_vpmap_init_from_file("nofile");
+    V_ASSERT(rc != PARSEC_SUCCESS && g_fopen == 1, "C40.init_from_file.post.unopenable_file_reported");
+    V_ASSERT(parsec_nbvp == -1 && parsec_vpmap == NULL, "C40.init_from_file.post.unopenable_file_leaves_no_map_state");
+    V_CANARY("from_file_unopenable");
+}
+#endif
